@@ -7,7 +7,8 @@
      good  : a word of the tag's language is accepted, passes the final check and is kept in order WITH its identities (C02);
      perm  : whatever is accepted is kept, up to order (C06);
      sound : in a consistent state a passing final check means a word of the language (C01). *)
-From MX Require Import Spec.Particle Spec.Deriv Model.AbsSeq Model.AbsSeqC02 Model.Classes Model.SeqMachine Model.SeqIds Model.AbsBag.
+From MX Require Import Spec.Particle Spec.Deriv Model.AbsSeq Model.AbsSeqC02 Model.Classes Model.SeqMachine Model.SeqIds Model.AbsBag
+  Model.ChoiceSeq Model.ChoiceClass Model.ChoiceC02.
 From Coq Require Import Arith Lia Permutation.
 
 Inductive xdoc := XNode (tag:positive) (kids:list xdoc).
@@ -163,25 +164,30 @@ Section Doc.
   Proof. intros e d O E. apply doc_roundtrip. eapply emitted_is_valid; eauto. Qed.
 End Doc.
 
-(* ---- the machines of the two classes, as one state type ---- *)
-Inductive ntpl := TSeq (t:stree) | TBag (alpha:list positive) (mn:nat).
-Inductive nstate := NSeq (s:sst) | NBag (alpha:list positive) (mn:nat) (items:list (nat*positive)).
-Definition nstart (t:ntpl) : nstate := match t with TSeq t => NSeq (init t) | TBag a mn => NBag a mn [] end.
+(* ---- the machines of the three classes, as one state type ---- *)
+Inductive ntpl := TSeq (t:stree) | TBag (alpha:list positive) (mn:nat) | TChoice (t:ctemplate).
+Inductive nstate := NSeq (s:sst) | NBag (alpha:list positive) (mn:nat) (items:list (nat*positive)) | NChoice (s:cst).
+Definition nstart (t:ntpl) : nstate := match t with TSeq t => NSeq (init t) | TBag a mn => NBag a mn [] | TChoice t => NChoice (cinit t) end.
 Definition nfeed (w:list positive) (s:nstate) : option nstate :=
   match s with
   | NSeq s => option_map NSeq (addw w 0 s)
-  | NBag a mn it => if forallb (fun x => mem_pos x a) w then Some (NBag a mn (it ++ tagged (length it) w)) else None end.
+  | NBag a mn it => if forallb (fun x => mem_pos x a) w then Some (NBag a mn (it ++ tagged (length it) w)) else None
+  | NChoice s => option_map NChoice (caddw w 0 s) end.
 Definition nfin (s:nstate) : bool :=
   match s with NSeq s => match required true s with [] => true | _ => false end
-             | NBag a mn it => Nat.eqb mn 0 || negb (Nat.eqb (length it) 0) end.
-Definition nord (s:nstate) : list (nat*positive) := match s with NSeq s => ordered s | NBag _ _ it => it end.
+             | NBag a mn it => Nat.eqb mn 0 || negb (Nat.eqb (length it) 0)
+             | NChoice s => match crequired s with [] => true | _ => false end end.
+Definition nord (s:nstate) : list (nat*positive) := match s with NSeq s => ordered s | NBag _ _ it => it | NChoice s => cordered s end.
 Definition nlang (t:ntpl) (w:list positive) : Prop :=
-  match t with TSeq t => Lang (re_of_s t) w | TBag a mn => mn <= length w /\ Forall (fun s => In s a) w end.
-Definition ntpl_ok (t:ntpl) : Prop := match t with TSeq t => wf_t t = true /\ NoDup (alpha_t t) | TBag a mn => mn <= 1 end.
+  match t with TSeq t => Lang (re_of_s t) w | TBag a mn => mn <= length w /\ Forall (fun s => In s a) w | TChoice t => Lang (re_of_c t) w end.
+Definition ntpl_ok (t:ntpl) : Prop :=
+  match t with TSeq t => wf_t t = true /\ NoDup (alpha_t t) | TBag a mn => mn <= 1
+             | TChoice t => wf_ct t = true /\ forallb c02_ok t = true /\ NoDup (alpha_c t) end.
 Definition nst_ok (t:ntpl) (s:nstate) : Prop :=
   match t, s with
   | TSeq t, NSeq s => Inv s /\ shape s = t
   | TBag a mn, NBag a' mn' it => a' = a /\ mn' = mn /\ mn <= 1 /\ Forall (fun x => In (snd x) a) it
+  | TChoice t, NChoice s => CInv s /\ cshape s = t
   | _, _ => False end.
 Lemma addw_perm w : forall n s s', addw w n s = Some s' -> Permutation (ordered s') (ordered s ++ tagged n w).
 Proof.
@@ -193,24 +199,36 @@ Proof.
 Qed.
 Lemma ngood t : ntpl_ok t -> forall w, nlang t w -> exists s, nfeed w (nstart t) = Some s /\ nfin s = true /\ nord s = tagged 0 w.
 Proof.
-  destruct t as [t|a mn]; simpl; intros K w Lw.
+  destruct t as [t|a mn|t]; simpl; intros K w Lw.
   - destruct K as [W ND]. destruct (C02_seq_ids t W ND w 0 Lw) as (s & A & R & O). exists (NSeq s). simpl. rewrite A, R. auto.
   - destruct Lw as [Ln F]. assert (FB: forallb (fun x => mem_pos x a) w = true) by (apply forallb_forall; intros x Hx; apply mem_pos_In; rewrite Forall_forall in F; auto).
     rewrite FB. eexists; split; [reflexivity|]. simpl. split; auto.
     unfold tagged. rewrite combine_length, seq_length, Nat.min_id. destruct mn as [|[|?]]; simpl; auto; try lia. destruct (length w); simpl; auto; lia.
+  - destruct K as (W & G & ND). destruct (C02_cmachine_ids t w W G ND Lw) as (s & A & R & O). exists (NChoice s). simpl. rewrite A, R. auto.
 Qed.
-Lemma nperm t w s : nfeed w (nstart t) = Some s -> Permutation (nord s) (tagged 0 w).
+Lemma caddw_perm w : forall n s s', caddw w n s = Some s' -> CInv s -> Permutation (cordered s') (cordered s ++ tagged n w).
 Proof.
-  destruct t as [t|a mn]; simpl.
+  induction w as [|a w IH]; intros n s s' E I; simpl in E.
+  - injection E as <-. unfold tagged. simpl. rewrite app_nil_r. apply Permutation_refl.
+  - destruct (cadd n a s) as [s1|] eqn:E1; [|discriminate]. destruct (cadd_ok _ _ _ _ E1 I) as (I1 & _ & P1). specialize (IH _ _ _ E I1).
+    eapply Permutation_trans; [exact IH|]. unfold tagged. simpl.
+    eapply Permutation_trans; [apply Permutation_app_tail; exact P1|]. simpl. apply Permutation_middle.
+Qed.
+Lemma nperm t w s : ntpl_ok t -> nfeed w (nstart t) = Some s -> Permutation (nord s) (tagged 0 w).
+Proof.
+  destruct t as [t|a mn|t]; simpl; intros K.
   - destruct (addw w 0 (init t)) as [s'|] eqn:A; simpl; [|discriminate]. intros E. injection E as <-. simpl.
     pose proof (addw_perm _ _ _ _ A) as P. rewrite (nonempty_false_ordered _ (nonempty_init t)) in P. exact P.
   - destruct (forallb (fun x => mem_pos x a) w); [|discriminate]. intros E. injection E as <-. simpl. apply Permutation_refl.
+  - destruct K as (W & _ & _). destruct (caddw w 0 (cinit t)) as [s'|] eqn:A; simpl; [|discriminate]. intros E. injection E as <-. simpl.
+    destruct (cinit_inv t W) as (I & _ & O). pose proof (caddw_perm _ _ _ _ A I) as P. rewrite O in P. exact P.
 Qed.
 Lemma nsound t s : nst_ok t s -> nfin s = true -> nlang t (names (nord s)).
 Proof.
-  destruct t as [t|a mn], s as [s|a' mn' it]; simpl; try contradiction.
+  destruct t as [t|a mn|t], s as [s|a' mn' it|s]; simpl; try contradiction.
   - intros [I Sh] R. subst t. apply required_sound; auto. destruct (required true s); auto; discriminate.
   - intros (-> & -> & M & F) R. unfold names. rewrite map_length. split.
     + apply orb_true_iff in R as [R|R]; [apply Nat.eqb_eq in R; lia|]. apply negb_true_iff in R. apply Nat.eqb_neq in R. lia.
     + apply Forall_forall. intros x Hx. apply in_map_iff in Hx as (p & <- & Hp). rewrite Forall_forall in F. auto.
+  - intros [I Sh] R. subst t. apply crequired_sound; auto. destruct (crequired s); auto; discriminate.
 Qed.
